@@ -509,9 +509,15 @@ def main(ctx):
 
     # R (b): the same cases at library level (one child process of the harness per command line) -----
     res = ctx.path("res.ndjson")
-    ctx.harness(["replay", "C16", "--cases", cases_path, "--out", res], timeout=1500)
+    libcases = cases
+    if not thorough:    # quick: every annot / dist case, a seeded half of the obigrep cases
+        grep = [c for c in cases if c["tool"] == "grep"]
+        libcases = [c for c in cases if c["tool"] != "grep"] + vlib.sample(ctx.rng, grep, 1300)
+    libpath = ctx.path("libcases.ndjson")
+    vlib.write_ndjson(libpath, libcases)
+    ctx.harness(["replay", "C16", "--cases", libpath, "--out", res], timeout=1500)
     summ = ctx.add_results(res)
-    nlib = sum(1 for c in cases if c["tool"] in ("grep", "annot", "dist"))
+    nlib = sum(1 for c in libcases if c["tool"] in ("grep", "annot", "dist"))
     if summ["checked"] + summ["failed"] != nlib:
         raise vlib.Inconclusive("library replay judged %d of %d cases" % (summ["checked"] + summ["failed"], nlib))
     for need in ("lib/grep", "lib/grep/paired", "lib/annot", "lib/dist"):
@@ -521,7 +527,7 @@ def main(ctx):
     trace, tbin = ctx.path("trace.ndjson"), ctx.path("trace_bin.ndjson")
     ctx.harness(["record", "C16", "--out", trace, "--n", 4000 if thorough else 700], timeout=1500)
     ctx.harness(["record", "C16", "--out", tbin, "--n", 1200 if thorough else 120, "--opt", "bindir=" + runner.bindir,
-                 "--opt", "big=%d" % (12 if thorough else 2)], timeout=1500)    # big: files of 5000 reads (> 1 MiB: several reader batches)
+                 "--opt", "big=%d" % (12 if thorough else 1)], timeout=1500)    # big: files of 5000 reads (> 1 MiB: several reader batches)
     with open(trace, "a") as f:
         f.write(open(tbin).read())
     judge_trace(ctx, trace)
